@@ -90,9 +90,15 @@ class Node:
                             'bools': [[int(b) for b in r] for r in x.bools]})
         return {'ok': True, **out.value} if out.ok else _err(out)
 
+    @staticmethod
+    def _nondefault(cmd, defaults):
+        """Only the arguments that differ from the documented defaults are passed,
+        so that the defaults themselves are exercised."""
+        return {k: cmd[k] for k, v in defaults.items() if k in cmd and cmd[k] != v}
+
     def do_todict(self, cmd):
         ctx = self.slots[cmd['slot']]
-        out = call(ctx.todict, ignore_lattice=cmd.get('ignore_lattice', False))
+        out = call(ctx.todict, **self._nondefault(cmd, {'ignore_lattice': False}))
         if not out.ok:
             return _err(out)
         d = out.value
@@ -105,17 +111,16 @@ class Node:
         else:
             d = {k: _tupled(v) if k != 'context' and k != 'lattice' else [_tupled(i) for i in v]
                  for k, v in cmd['dict'].items()}
-        out = call(self.C.Context.fromdict, d, ignore_lattice=cmd.get('ignore_lattice', False),
-                   require_lattice=cmd.get('require_lattice', False), raw=cmd.get('raw', False))
+        out = call(self.C.Context.fromdict, d,
+                   **self._nondefault(cmd, {'ignore_lattice': False, 'require_lattice': False, 'raw': False}))
         return self._store(cmd, out)
 
     def do_tojson(self, cmd):
         ctx = self.slots[cmd['slot']]
-        kw = {'encoding': cmd.get('encoding', 'utf-8'), 'indent': cmd.get('indent'),
-              'sort_keys': cmd.get('sort_keys', True), 'ignore_lattice': cmd.get('ignore_lattice', False)}
+        kw = self._nondefault(cmd, {'encoding': 'utf-8', 'indent': None, 'sort_keys': True, 'ignore_lattice': False})
         if cmd.get('pathkind') == 'fileobj':
             def go():
-                with open(cmd['path'], 'w', encoding=kw['encoding']) as f:
+                with open(cmd['path'], 'w', encoding=cmd.get('encoding', 'utf-8')) as f:
                     ctx.tojson(f, **kw)
             out = call(go)
         else:
@@ -123,11 +128,10 @@ class Node:
         return {'ok': True} if out.ok else _err(out)
 
     def do_fromjson(self, cmd):
-        kw = {'encoding': cmd.get('encoding', 'utf-8'), 'ignore_lattice': cmd.get('ignore_lattice', False),
-              'require_lattice': cmd.get('require_lattice', False), 'raw': cmd.get('raw', False)}
+        kw = self._nondefault(cmd, {'encoding': 'utf-8', 'ignore_lattice': False, 'require_lattice': False, 'raw': False})
         if cmd.get('pathkind') == 'fileobj':
             def go():
-                with open(cmd['path'], encoding=kw['encoding']) as f:
+                with open(cmd['path'], encoding=cmd.get('encoding', 'utf-8')) as f:
                     return self.C.Context.fromjson(f, **kw)
             out = call(go)
         else:
@@ -137,7 +141,8 @@ class Node:
     def do_tofile(self, cmd):
         x = self.slots[cmd['slot']]
         kw = dict(cmd.get('kwargs', {}))
-        out = call(x.tofile, self._path(cmd), frmat=cmd['frmat'], encoding=cmd.get('encoding', 'utf-8'), **kw)
+        kw.update(self._nondefault(cmd, {'frmat': 'cxt', 'encoding': 'utf-8'}))
+        out = call(x.tofile, self._path(cmd), **kw)
         return {'ok': True} if out.ok else _err(out)
 
     def do_fromfile(self, cmd):
